@@ -68,7 +68,10 @@ def h_resume(B, mode):
     finally:
         sc.Ctx.cur = saved_ctx
     k = B.pick("crash_at", 0, nops - 1)
-    variant = ("before", "truncated")[B.pick("variant", 0, 1)]
+    variant = ("before", "truncated", "after")[B.pick("variant", 0, 2)]
+    is_open = oplog[k].split(":", 2)[1].startswith("open")
+    if (variant == "truncated" and not is_open) or (variant == "after" and is_open):
+        B.assume(False)                      # variant not applicable to this kind of operation
     B.note(f"{nops} file-system mutations; killed at {oplog[k]} ({variant})")
     import re as _re
     site = _re.sub(r"[0-9]+", "#", oplog[k].split(":", 1)[1].replace(":ref/", " "))
